@@ -297,4 +297,268 @@ theorem ctxOf_with_sync {cfg : Config} {pre : State} {c : Ctx} (hc : ctxOf cfg p
       cases c
       simp_all
 
+/-! ### steps inside an epoch: congruence of proposers, stake and sync lookups; deposits -/
+
+/-- registries that agree on the effective balances of the given indices -/
+def EffAgree (vs vs' : List Validator) (indices : List Nat) : Prop :=
+  ∀ i ∈ indices, (vs'[i]?).map (·.effective_balance) = (vs[i]?).map (·.effective_balance)
+
+theorem proposer_loop_congr {vs vs' : List Validator} {indices : List Nat} (h : EffAgree vs vs' indices)
+    (seed : Bytes) (total : Nat) : ∀ fuel i,
+    compute_proposer_index.loop cfg vs' indices seed total fuel i =
+      compute_proposer_index.loop cfg vs indices seed total fuel i := by
+  intro fuel
+  induction fuel with
+  | zero => intro i; simp [compute_proposer_index.loop]
+  | succ fuel ih =>
+    intro i
+    simp only [compute_proposer_index.loop, bind, Except.bind]
+    cases hk : compute_shuffled_index cfg (i % total) total seed with
+    | error e => rfl
+    | ok k =>
+      simp only []
+      unfold idx
+      cases hc : indices[k]? with
+      | none => rfl
+      | some cand =>
+        simp only [pure, Except.pure]
+        have hmem : cand ∈ indices := List.mem_of_getElem? hc
+        have := h cand hmem
+        cases h1 : vs[cand]? with
+        | none =>
+          rw [h1] at this
+          cases h2 : vs'[cand]? with
+          | none => rfl
+          | some v' => rw [h2] at this; simp at this
+        | some v =>
+          rw [h1] at this
+          cases h2 : vs'[cand]? with
+          | none => rw [h2] at this; simp at this
+          | some v' =>
+            rw [h2] at this
+            simp only [Option.map_some, Option.some.injEq] at this
+            simp only [this, ih]
+
+theorem compute_proposer_index_congr {vs vs' : List Validator} {indices : List Nat} (h : EffAgree vs vs' indices)
+    (seed : Bytes) : compute_proposer_index cfg vs' indices seed = compute_proposer_index cfg vs indices seed := by
+  unfold compute_proposer_index
+  simp only [proposer_loop_congr h]
+
+theorem active_lt {st : State} {e i : Nat} (h : i ∈ get_active_validator_indices st e) : i < st.validators.length := by
+  rw [get_active_eq] at h
+  exact List.mem_range.mp (List.mem_filter.mp h).1
+
+theorem proposersOf_congr {st st' : State} {e : Nat} {active : List Nat}
+    (hseed : get_seed cfg st' e DOMAIN_BEACON_PROPOSER = get_seed cfg st e DOMAIN_BEACON_PROPOSER)
+    (h : EffAgree st.validators st'.validators active) :
+    proposersOf cfg st' e active = proposersOf cfg st e active := by
+  unfold proposersOf
+  rw [hseed]
+  simp only [compute_proposer_index_congr h]
+
+theorem totalActiveStakeOf_congr {st st' : State} {e : Nat}
+    (hact : get_active_validator_indices st' e = get_active_validator_indices st e)
+    (h : EffAgree st.validators st'.validators (get_active_validator_indices st e)) :
+    totalActiveStakeOf cfg st' e = totalActiveStakeOf cfg st e := by
+  unfold totalActiveStakeOf
+  rw [hact]
+  congr 2
+  apply List.map_congr_left
+  intro i hi
+  have := h i hi
+  simp only [List.getD_eq_getElem?_getD]
+  cases h1 : st.validators[i]? <;> cases h2 : st'.validators[i]? <;> simp_all
+
+/-- extending the registry keeps the index of every pubkey that was found -/
+theorem indexOfPubkey_append {vs extra : List Validator} {pk : Bytes} {i : Nat}
+    (h : indexOfPubkey vs pk = some i) : indexOfPubkey (vs ++ extra) pk = some i := by
+  unfold indexOfPubkey at *
+  rw [List.findIdx?_append, h]
+  rfl
+
+theorem mapM_ok_mono {α β : Type} {f g : α → SM β} : ∀ (l : List α) (out : List β),
+    (∀ x ∈ l, ∀ y, f x = .ok y → g x = .ok y) → l.mapM f = .ok out → l.mapM g = .ok out := by
+  intro l
+  induction l with
+  | nil => intro out _ h; simpa using h
+  | cons x rest ih =>
+    intro out hfg h
+    simp only [List.mapM_cons, bind, Except.bind, pure, Except.pure] at h ⊢
+    cases hx : f x with
+    | error e => simp [hx] at h
+    | ok y =>
+      rw [hfg x (List.mem_cons_self) y hx]
+      simp only [hx] at h
+      cases hr : rest.mapM f with
+      | error e => simp [hr] at h
+      | ok out' =>
+        rw [hr] at h
+        rw [ih out' (fun z hz => hfg z (List.mem_cons_of_mem _ hz)) hr]
+        exact h
+
+theorem memberIndex_append {vs extra : List Validator} {pk : Bytes} {i : Nat}
+    (h : memberIndex vs pk = .ok i) : memberIndex (vs ++ extra) pk = .ok i := by
+  unfold memberIndex at *
+  cases hi : indexOfPubkey vs pk with
+  | none => simp [hi, invalid, throw, throwThe, MonadExceptOf.throw] at h
+  | some j => rw [indexOfPubkey_append hi]; rw [hi] at h; exact h
+
+theorem syncOf_append {vs extra : List Validator} {sc : SyncCommittee} {r : SyncC}
+    (h : syncOf vs sc = .ok r) : syncOf (vs ++ extra) sc = .ok r := by
+  unfold syncOf at *
+  simp only [bind, Except.bind, pure, Except.pure] at *
+  split at h
+  · cases h
+  · rename_i out hout
+    rw [mapM_ok_mono _ _ (fun x _ y hy => memberIndex_append hy) hout]
+    exact h
+
+theorem syncOfOpt_append {vs extra : List Validator} {sc : Option SyncCommittee} {r : Option SyncC}
+    (h : syncOfOpt vs sc = .ok r) : syncOfOpt (vs ++ extra) sc = .ok r := by
+  cases sc with
+  | none => exact h
+  | some sc =>
+    simp only [syncOfOpt, Functor.map, Except.map] at *
+    split at h
+    · cases h
+    · rename_i r0 hr0
+      rw [syncOf_append hr0]
+      exact h
+
+theorem foldl_afterDeposit (news : List Validator) : ∀ c : Ctx,
+    news.foldl afterDeposit c =
+      { c with pubkeys := c.pubkeys ++ news.map (·.pubkey), effBalances := c.effBalances ++ news.map (·.effective_balance) } := by
+  induction news with
+  | nil => intro c; simp
+  | cons v rest ih => intro c; simp [List.foldl_cons, ih, afterDeposit, List.append_assoc]
+
+/-- **A step inside an epoch** (slot processing without an epoch transition, or a block with any operations):
+the registry keeps its existing validators' pubkeys and effective balances and gains the validators `news`
+(deposits with new pubkeys), everything written is within `EpochWrites`, the state's sync committees are untouched.
+Then the context of the new state is the old context with `afterDeposit` applied for each new validator. -/
+theorem block_eq_ctxOf_aux {N : Nat} {st st1 : State} {c : Ctx} (old news : List Validator)
+    (hc : ctxOf cfg st = .ok c)
+    (hN : get_current_epoch cfg st = N) (hN1 : get_current_epoch cfg st1 = N)
+    (hw : EpochWrites cfg N st st1)
+    (hmin : 1 ≤ cfg.MIN_SEED_LOOKAHEAD) (hmax : 1 ≤ cfg.MAX_SEED_LOOKAHEAD)
+    (hvec : cfg.MIN_SEED_LOOKAHEAD + 3 < cfg.EPOCHS_PER_HISTORICAL_VECTOR) (hfar : N + 1 < FAR_FUTURE_EPOCH)
+    (hvals : st1.validators = old ++ news)
+    (hpk : old.map (·.pubkey) = st.validators.map (·.pubkey))
+    (heff : old.map (·.effective_balance) = st.validators.map (·.effective_balance))
+    (hsc : st1.current_sync_committee = st.current_sync_committee)
+    (hsn : st1.next_sync_committee = st.next_sync_committee) :
+    ctxOf cfg st1 = .ok (news.foldl afterDeposit c) := by
+  obtain ⟨h1, h2, h3, h4, h5, h6, h7, h8, h9, h10⟩ := ctxOf_ok hc
+  have hprevE : get_previous_epoch cfg st1 = get_previous_epoch cfg st := by
+    unfold get_previous_epoch; rw [hN, hN1]
+  have hP1 : get_previous_epoch cfg st ≤ N + 1 := by
+    unfold get_previous_epoch; rw [hN]; dsimp only [GENESIS_EPOCH]; by_cases h0 : N = 0 <;> simp [h0] <;> omega
+  have hP2 : N ≤ get_previous_epoch cfg st + 1 := by
+    unfold get_previous_epoch; rw [hN]; dsimp only [GENESIS_EPOCH]; by_cases h0 : N = 0 <;> simp [h0] <;> omega
+  have hstab : ∀ e, e ≤ N + 1 → N ≤ e + 1 → shufflingOf cfg st1 e = shufflingOf cfg st e := by
+    intro e he he'
+    unfold shufflingOf
+    rw [active_stable hw e he hmax hfar, seed_stable hw e _ he he' hmin hvec]
+  obtain ⟨_, hact⟩ := shufflingOf_fields h1
+  rw [hN] at hact
+  have holdlen : old.length = st.validators.length := by
+    have := congrArg List.length hpk; simpa using this
+  have hagree : EffAgree st.validators st1.validators (get_active_validator_indices st N) := by
+    intro i hi
+    have hlt := active_lt hi
+    rw [hvals, List.getElem?_append_left (by omega)]
+    have e1 : (old[i]?).map (·.effective_balance) = (old.map (·.effective_balance))[i]? := by simp
+    have e2 : (st.validators[i]?).map (·.effective_balance) = (st.validators.map (·.effective_balance))[i]? := by simp
+    rw [e1, e2, heff]
+  have hprop : proposersOf cfg st1 N c.cur.active = proposersOf cfg st N c.cur.active := by
+    apply proposersOf_congr (seed_stable hw N _ (by omega) (by omega) hmin hvec)
+    rw [hact]; exact hagree
+  have htot : totalActiveStakeOf cfg st1 N = totalActiveStakeOf cfg st N :=
+    totalActiveStakeOf_congr (active_stable hw N (by omega) hmax hfar) hagree
+  have hsync : ∀ sc r, syncOfOpt st.validators sc = .ok r → syncOfOpt st1.validators sc = .ok r := by
+    intro sc r h
+    rw [hvals]
+    apply syncOfOpt_append
+    rw [syncOfOpt_congr hpk]; exact h
+  rw [hN] at h1 h3 h4 h8 h9
+  unfold ctxOf
+  rw [hN1, hprevE]
+  dsimp only
+  rw [hstab N (by omega) (by omega), h1, hstab _ hP1 hP2, h2, hstab (N + 1) (by omega) (by omega), h3]
+  simp only [bind, Except.bind, pure, Except.pure]
+  rw [hprop, h4, hsc, hsn, hsync _ _ h5, hsync _ _ h6]
+  simp only []
+  rw [foldl_afterDeposit, htot, hvals]
+  congr 1
+  cases c
+  simp_all
+
+/-! ### where the indices held by a context come from -/
+
+theorem proposer_loop_mem {vs : List Validator} {indices : List Nat} {seed : Bytes} {total : Nat} :
+    ∀ fuel i r, compute_proposer_index.loop cfg vs indices seed total fuel i = .ok r → r ∈ indices := by
+  intro fuel
+  induction fuel with
+  | zero => intro i r h; simp [compute_proposer_index.loop, throw, throwThe, MonadExceptOf.throw] at h
+  | succ fuel ih =>
+    intro i r h
+    simp only [compute_proposer_index.loop, bind, Except.bind] at h
+    split at h
+    · cases h
+    · rename_i k hk
+      unfold idx at h
+      cases hc : indices[k]? with
+      | none => simp [hc, invalid, throw, throwThe, MonadExceptOf.throw] at h
+      | some cand =>
+        simp only [hc, pure, Except.pure] at h
+        cases hv : vs[cand]? with
+        | none => simp [hv, invalid, throw, throwThe, MonadExceptOf.throw] at h
+        | some v =>
+          simp only [hv] at h
+          split at h
+          · cases h; exact List.mem_of_getElem? hc
+          · exact ih _ _ h
+
+theorem compute_proposer_index_mem {vs : List Validator} {indices : List Nat} {seed : Bytes} {r : Nat}
+    (h : compute_proposer_index cfg vs indices seed = .ok r) : r ∈ indices := by
+  unfold compute_proposer_index at h
+  simp only [bind, Except.bind, require] at h
+  split at h
+  · cases h
+  · exact proposer_loop_mem _ _ _ h
+
+theorem mapM_ok_forall {α β : Type} {f : α → SM β} {P : β → Prop} : ∀ (l : List α) (out : List β),
+    (∀ x ∈ l, ∀ y, f x = .ok y → P y) → l.mapM f = .ok out → ∀ y ∈ out, P y := by
+  intro l
+  induction l with
+  | nil => intro out _ h; simp [pure, Except.pure] at h; subst h; simp
+  | cons x rest ih =>
+    intro out hf h
+    simp only [List.mapM_cons, bind, Except.bind, pure, Except.pure] at h
+    cases hx : f x with
+    | error e => simp [hx] at h
+    | ok y =>
+      simp only [hx] at h
+      cases hr : rest.mapM f with
+      | error e => simp [hr] at h
+      | ok out' =>
+        rw [hr] at h
+        cases h
+        intro z hz
+        rcases List.mem_cons.mp hz with rfl | hz
+        · exact hf x List.mem_cons_self _ hx
+        · exact ih out' (fun w hw => hf w (List.mem_cons_of_mem _ hw)) hr z hz
+
+theorem proposersOf_mem {st : State} {e : Nat} {active : List Nat} {p : Proposers}
+    (h : proposersOf cfg st e active = .ok p) : ∀ r ∈ p.proposers, r ∈ active := by
+  unfold proposersOf at h
+  simp only [bind, Except.bind, pure, Except.pure] at h
+  split at h
+  · cases h
+  · split at h
+    · cases h
+    · rename_i ps hps
+      cases h
+      exact mapM_ok_forall _ _ (fun x _ y hy => compute_proposer_index_mem hy) hps
+
 end Zrnt.Proofs.Ctx
